@@ -26,6 +26,19 @@ def unescape(n):
     return n[:-1] if n.endswith("_") and n[:-1] in ESCAPABLE else n
 
 
+def match_names(declared, emitted):
+    """the property's reading of an emitted top-level name: the declared identifier, or that identifier with one underscore
+    appended; every emitted name stands for at most one declared identifier.  -> {emitted: declared}
+    (shortest declared identifiers first, so `class`, `class_` emitted as `class_`, `class__` are told apart)"""
+    back, emitted = {}, set(emitted)
+    for d in sorted(set(declared), key=lambda x: (len(x), x)):
+        for cand in (d, d + "_"):
+            if cand in emitted and cand not in back:
+                back[cand] = d
+                break
+    return back
+
+
 def run_impl(b, workdir, s):
     """exp2python + harness on one schema -> dict(rc, stderr, files, line)"""
     d = os.path.join(workdir, s.name)
@@ -93,9 +106,11 @@ def oracle(s, impl, spec_line):
     _, sclasses, stypes, _ = parse_items(spec_line)
     w = re.search(r"\| wiring=(\S+)", line)
     wiring = w.group(1) if w else "missing"
+    back = match_names([e.name for e in s.entities] + [t.name for t in s.types], set(classes) | set(types))
+    un = lambda n: back.get(n, unescape(n))
     by_ent = {}
     for cn in classes:
-        by_ent.setdefault(unescape(cn), []).append(cn)
+        by_ent.setdefault(un(cn), []).append(cn)
     if len(classes) != len(s.entities):
         return ("class-count", f"{len(s.entities)} entities but {len(classes)} entity classes {sorted(classes)}")
     for e in s.entities:
@@ -103,15 +118,15 @@ def oracle(s, impl, spec_line):
             return ("class-missing", f"no class for entity {e.name} (classes: {sorted(classes)})")
         bases, ctor = classes[by_ent[e.name][0]]
         want_b, want_c = sclasses[e.name]
-        if [unescape(x) for x in bases] != want_b:
+        if [un(x) for x in bases] != want_b:
             return ("bases-order", f"class {e.name}: bases {bases}, supertypes in declaration order {want_b}",
-                    {"entity": e.name, "got": [unescape(x) for x in bases], "want": want_b})
+                    {"entity": e.name, "got": [un(x) for x in bases], "want": want_b})
         got = [unescape(re.sub(r"^inherited\d+__", "", p)) for p in (ctor or [])]
         if got != want_c:
             return ("ctor-order", f"class {e.name}: constructor takes {ctor}, Part 21 order of the explicit attributes is {want_c}",
                     {"entity": e.name, "got": got, "want": want_c})
     mo = re.search(r"\| order=(\S+)", line)
-    emitted = [] if not mo or mo.group(1) == "-" else [unescape(x) for x in mo.group(1).split(",")]
+    emitted = [] if not mo or mo.group(1) == "-" else [un(x) for x in mo.group(1).split(",")]
     names = {e.name for e in s.entities}
     for e in s.entities:
         for p in e.supers:
@@ -121,20 +136,22 @@ def oracle(s, impl, spec_line):
         return ("wiring", f"a constructor parameter does not reach its attribute (instantiating with one sentinel per parameter): {wiring}")
     by_type = {}
     for tn in types:
-        by_type.setdefault(unescape(tn), tn)
+        by_type.setdefault(un(tn), tn)
     for t in s.types:
         if t.name not in by_type:
             return ("type-missing", f"no definition for defined type {t.name} (found {sorted(types)})")
         got, want = types[by_type[t.name]], stypes[t.name]
         k, _, rest = got.partition(":")
-        if k in ("enum", "select"):
+        if k == "enum":
             got = k + ":" + ",".join(sorted(unescape(x) for x in rest.split(",") if x != "-"))
+        elif k == "select":
+            got = k + ":" + ",".join(sorted(un(x) for x in rest.split(",") if x != "-"))
         elif k == "defined":
-            got = k + ":" + unescape(rest)
+            got = k + ":" + un(rest)
         elif k == "aggregate":
             if "!" in rest:
                 return ("type-body", f"defined type {t.name}: the base type name of the aggregate cannot be resolved in its scope: {got}")
-            got = k + ":" + re.sub(r"@?([A-Za-z_][A-Za-z_0-9]*)(\]*)$", lambda m: unescape(m.group(1)) + m.group(2), rest)
+            got = k + ":" + re.sub(r"@?([A-Za-z_][A-Za-z_0-9]*)(\]*)$", lambda m: un(m.group(1)) + m.group(2), rest)
         if got != want:
             return ("type-body", f"defined type {t.name}: emitted {got}, declared {want}")
     return None
@@ -410,13 +427,18 @@ def classify(o, s):
         srt = [n for _, _, n in sorted((-chain_len(s, n), i, n) for i, n in enumerate(want))]
         if sorted(got) == sorted(want) and got == srt:
             return "bases-order:not-declaration-order"
+    if kind in ("class-count", "class-missing", "type-missing", "type-body"):
+        top = {e.name for e in s.entities} | {t.name for t in s.types}
+        if any(k in top and k + "_" in top for k in ESCAPABLE):
+            # the escaped keyword `k` and a declared `k_` are written under one Python name: one of the two definitions is lost
+            return "names:keyword-underscore-collision"
     if kind == "import-error" and "method resolution order" in detail and not c3_linearisable(s):
         return "import-error:no-c3-linearisation"
     return key_of(kind, s)
 
 
 CLASSES = ("ctor-order:shared-ancestor-twice", "bases-order:not-declaration-order", "bases-order:ancestor-before-descendant",
-           "import-error:no-c3-linearisation")
+           "import-error:no-c3-linearisation", "names:keyword-underscore-collision")
 
 
 def report(ctx, run, results, schemas, cap=8):
